@@ -278,7 +278,10 @@ def execute(scenario, seed, overrides=None):
                 if not pk:
                     continue
                 r = Release(last + 0.4, last + 0.5, [(a, b) for (a, b, c) in pk], key[1], key[0], d["legacy"])
-                classify(r, last * 1000.0, st["hm"].cache)
+                # the query is complete - "arrives" - when it is released: what was seen multicast less than a second
+                # before THAT instant is protected (the reply is timed from the release as well, repair D10); judged at
+                # the instant this is evaluated, which lies inside the release interval (fourth audit, D69)
+                classify(r, min(max(w.now, last + 0.4), last + 0.5) * 1000.0, st["hm"].cache)
                 r.ambiguous = len(d["starts"]) > 1
                 rels.append(r)
             rel = rels[0]
